@@ -424,3 +424,26 @@ def nontrivial(case, impl):
 def describe(case):
     cmd, tol, h, w, rows, rhs = parse(case)
     return {'op': cmd, 'class': case.cls, 'tolerance': tol, 'rows': rows[:4], 'rhs': rhs[:4], 'shape': [h, w]}
+
+
+# ---- extraction cross-check: the same cases evaluated inside Coq by vm_compute
+from tools import xenc
+COQ_IMPORTS = 'Base.XEnc Model.Subst Model.Gauss'
+
+
+def coq_term(case):
+    cmd, tol, h, w, rows, rhs = parse(case)
+    if len(rows) > 12:
+        return None
+    m, b = xenc.cq_fmat(rows), xenc.cq_floats(rhs)
+    if cmd in ('ge', 'ragged'):
+        return 'enc_res enc_floats (@ge_lists float FNum %s %s %s%%float)' % (m, b, xenc.coq_float(tol))
+    if cmd == 'bs':
+        return 'enc_res enc_floats (@back_subst_lists float FNum %s %s)' % (m, b)
+    if cmd == 'fs':
+        return 'enc_res enc_floats (Ok (@forward_subst_lists float FNum %s %s))' % (m, b)
+    return None
+
+
+def encode_result(case, model_line):
+    return xenc.enc_line(model_line, xenc.enc_floats_toks)
